@@ -21,6 +21,10 @@ def site_of(e):
     return dict(exc=type(e).__name__, file=fr.filename.split('/')[-1], func=fr.name)
 
 
+def msg_of(e):
+    return str(e)[:300]
+
+
 def probe_case(dialect, text):
     """crash oracle on the real parse_sql; returns failure dict or None"""
     from mindsdb_sql import parse_sql
@@ -36,13 +40,15 @@ def probe_case(dialect, text):
         return None
     except Exception as e:
         s = site_of(e)
-        return dict(desc='parse_sql raised %s in %s:%s' % (s['exc'], s['file'], s['func']), dialect=dialect,
-                    text=text, site=s, **{'class': '%s/%s/%s' % (s['exc'], s['file'], s['func'])})
+        m = msg_of(e)
+        return dict(desc='parse_sql raised %s (%s) in %s:%s' % (s['exc'], m[:80], s['file'], s['func']), dialect=dialect,
+                    text=text, site=s, msg=m,
+                    **{'class': '%s/%s/%s/%s' % (s['exc'], s['file'], s['func'], re.sub(r'\d+', 'N', m)[:60])})
     return None
 
 
 def kf_match(k, f):
-    return k.get('site') == f.get('site')
+    return k.get('site') == f.get('site') and re.search(k.get('msg_re', ''), f.get('msg', '')) is not None
 
 
 def run(chk):
